@@ -223,14 +223,14 @@ DepthOK(c) ==
     LET r == Result(c) IN
     /\ (IsChain(c) => (r.st = "ok") = (Len(c.defs) <= MaxDepth))
     /\ r.st \in {"ok", "err"}
-    /\ (r.st = "ok" => TracesOutline(r, RefCommands(r.cs, 1)))
+    /\ (r.st = "ok" => TracesOutline(r, RefCommands(r.cs)))
 
 DesignOK ==
   done =>
     /\ RoundTripOK(cs)
     /\ (cs.kind = "simple" => \A c \in {ToFine(ContoursOf(cs.pats, cs.v)[i]) : i \in 1 .. Len(cs.pats)} : ContourOK(c))
     /\ (cs.kind = "simple" => LET r == Result(cs) IN
-                              r.st = "ok" /\ r.exact /\ TracesOutline(r, RefCommands(r.cs, 1)))
+                              r.st = "ok" /\ r.exact /\ TracesOutline(r, RefCommands(r.cs)))
     /\ ChainOK(cs)
     /\ DepthOK(cs)
 
@@ -245,7 +245,7 @@ EmitCase ==
     LET r == Result(cs) IN
     PrintT(<<"CASE", ToJson([abs |-> Describe(cs), glyphs |-> GlyphsOf(cs), n |-> NumOf(cs), root |-> RootOf(cs),
                              st |-> r.st, exact |-> r.exact,
-                             exp |-> IF r.st = "ok" THEN RefCommands(r.cs, 1) ELSE <<>>])>>)
+                             exp |-> IF r.st = "ok" THEN RefCommands(r.cs) ELSE <<>>])>>)
 
 Init == cs \in Cases /\ done = FALSE
 Next == ~done /\ done' = TRUE /\ cs' = cs
